@@ -58,13 +58,15 @@ func (v *BasicSeqnoValidator) validate(ctx context.Context, _ peer.ID, m *Messag
 	}
 
 	var nonce uint64
-	if len(nonceBytes) > 0 {
+	if len(nonceBytes) >= 8 {
 		nonce = binary.BigEndian.Uint64(nonceBytes)
 	}
 
+	// a seqno that is not exactly 8 bytes long is malformed; it is treated as 0,
+	// which is never greater than the stored nonce, so the message is ignored.
 	var seqno uint64
 	seqnoBytes := m.GetSeqno()
-	if len(seqnoBytes) > 0 {
+	if len(seqnoBytes) == 8 {
 		seqno = binary.BigEndian.Uint64(seqnoBytes)
 	}
 
@@ -83,7 +85,7 @@ func (v *BasicSeqnoValidator) validate(ctx context.Context, _ peer.ID, m *Messag
 		return ValidationIgnore
 	}
 
-	if len(nonceBytes) > 0 {
+	if len(nonceBytes) >= 8 {
 		nonce = binary.BigEndian.Uint64(nonceBytes)
 	}
 
